@@ -43,7 +43,9 @@ DECIDED = {
             "(thorough) The dev-profile assertions of the number pipeline - overflow, shift and index checks in parse_number, "
             "parse_number_fraction, parse_exponent, parse_float, parse_float_fast, parse_floating_normal_fast and Eisel-Lemire - are shown "
             "unreachable by the SMT runs for every digit value of 40996 literal shapes and every significand at every decimal exponent "
-            "-345..345, with one exception that neither solver decides (`add + 1` in parse_floating_normal_fast, listed outside)."),
+            "-345..345, with one exception that neither solver decides (`add + 1` in parse_floating_normal_fast, listed outside). "
+            "Lifetime of what a reader hands out: the bytes Read::slice gives out for 'de over an inlined (two symbolic bytes), Arc<String> "
+            "and static &FastStr are still readable after the reader is dropped (F15: they used to live in a box the reader freed)."),
     "C02": ("Differential harnesses real scanner vs. RFC 8259 reference recogniser: Ok <=> the reference accepts, and the consumed length "
             "equals the reference's - strings (scalar path on all buffers <= 8; block path by window in the thorough tier), numbers (validating "
             "skipper on all buffers <= 5/6/8 and across a 32-byte chunk edge; fully-parsing scanner <= 7), literals, colon, trailing characters, "
@@ -61,7 +63,8 @@ DECIDED = {
     "C05": ("format_string on every byte string <= 3 (4 and 6 thorough) equals the specified escaping with exact length and all writes inside the "
             "6n+35 window; the three escape tables for all 256 bytes; check_cross_page; non-finite floats -> null for every bit pattern; "
             "the reserve/commit protocol of BufferedWriter under short writes and of io::BufWriter (pending bytes reach the inner writer "
-            "first)."),
+            "first); Formatter::write_string_fast (compact and pretty) on every ASCII string <= 2 incl. the empty one, quoted or not (the "
+            "collect_str fragments), hands the escaper a window >= 6n+35 and commits exactly the specified escaping."),
     "C07": ("Integers: every digit string of 1..12, 19 and 20 digits (13..20 thorough) with and without '-' yields the exact u64/i64 "
             "with the right classification or a float exactly when it does not fit (expected value computed in u128); -0 is the float "
             "negative zero; grammar and stop index of the fully-parsing scanner on all byte strings <= 7; exponent scanner saturation; "
@@ -112,12 +115,15 @@ DECIDED = {
             "element recogniser E (escape-free keys); the iterator latch: after an error (including the up-front invalid-UTF-8 error) or the "
             "end every later call yields None (one step from an arbitrary state); the unchecked iterators' string skipper across block edges; "
             "the unchecked iterators' number skipper stops exactly at the end of the number on every buffer <= 7 (F14: the span "
-            "used to include the blanks in front of the separator)."),
+            "used to include the blanks in front of the separator); the validating array/object skippers every element of a checked iterator "
+            "goes through (m_skip_array_n6, m_skip_object_n6: accept exactly the grammar, blanks inside empty brackets included); borrowed "
+            "keys cut from a reader over &FastStr outlive the iterator (F15)."),
     "C13": ("Partial: skip_one returns the exact span and escape status (what LazyValue captures); OwnedLazyValue built from raw text of "
             "every JSON value class (From<LazyValue>, new) reports the same type/bool/null answers and never reaches unreachable!(); a failed "
             "as_array_mut/as_object_mut probe, and a get_mut with an index kind that cannot apply, leave a raw value untouched and never "
             "decode it; the clone of a raw value is still the raw text whether or not its decoding was cached, with its own copy of the "
-            "cache (F12); the clone of a LazyValue keeps its escape status; (thorough) taking the cached decoding out of a LazyRaw empties "
+            "cache (F12); the clone of a LazyValue keeps its escape status; From<LazyValue> of an escaped string is the raw text with an empty cache "
+            "whether or not as_str() ran on it (or on the value it was cloned from) before; (thorough) taking the cached decoding out of a LazyRaw empties "
             "the cache."),
     "C14": ("The C02/C10 harnesses read in the other direction: whenever the validating skipper / checked walkers / checked iterator "
             "driver return Ok(span), the reference accepts exactly that span and everything traversed before it."),
